@@ -2261,16 +2261,21 @@ void indent_text()
       {
          // Start a case - indent options::indent_switch_case() from the switch level
          log_rule_B("indent_switch_case");
-         const size_t tmp = frm.top().GetIndent() + indent_size
-                            - options::indent_switch_body()
-                            + options::indent_switch_case();
+         // a 'case' that is not inside a switch body has no switch body indent to take back:
+         // the columns must not wrap around below the first column
+         const long tmp_signed = static_cast<long>(frm.top().GetIndent()) + static_cast<long>(indent_size)
+                                 - static_cast<long>(options::indent_switch_body())
+                                 + static_cast<long>(options::indent_switch_case());
+         const size_t tmp = (tmp_signed < 1) ? 1 : static_cast<size_t>(tmp_signed);
          frm.push(pc, __func__, __LINE__);
 
          frm.top().SetIndent(tmp);
          log_indent();
 
          log_rule_B("indent_case_shift");
-         frm.top().SetIndentTmp(tmp - indent_size + options::indent_case_shift());
+         const long tmp_shifted = static_cast<long>(tmp) - static_cast<long>(indent_size)
+                                  + static_cast<long>(options::indent_case_shift());
+         frm.top().SetIndentTmp((tmp_shifted < 1) ? 1 : static_cast<size_t>(tmp_shifted));
          frm.top().SetIndentTab(tmp);
          log_indent_tmp();
 
